@@ -33,6 +33,11 @@ def LenMod.bits : LenMod → Nat
   | .none => 32 | .hh => 8 | .h => 16 | .l => 64 | .ll => 64 | .j => 64 | .z => 64 | .t => 64
   | .L => 32 | .B => 8 | .W => 16 | .D => 32 | .Q => 64
 
+/-- the integer conversions, for which a precision switches the `0` flag off -/
+def isIntConv (c : Char) : Bool := c = 'd' || c = 'i' || c = 'o' || c = 'u' || c = 'x' || c = 'X'
+
+def isFloatConv (c : Char) : Bool := c = 'f' || c = 'F' || c = 'e' || c = 'E' || c = 'g' || c = 'G'
+
 def ascii (s : String) : Bytes := s.toList.map fun c => UInt8.ofNat c.toNat
 
 /-! ### integers -/
@@ -202,6 +207,12 @@ deriving Repr
 
 def cstrlen (s : Bytes) : Bytes := s.takeWhile (· ≠ 0)
 
+/-- the bytes `%s` prints: up to the terminator, at most `precision` of them -/
+def strArg (prec : Option Nat) (str : Bytes) : Bytes :=
+  match prec with
+  | none => cstrlen str
+  | some p => (cstrlen str).take p
+
 /-- one conversion; `none` when the argument kind does not fit -/
 def formatOne (s : Spec) : Arg → Option Bytes
   | .int raw =>
@@ -213,12 +224,10 @@ def formatOne (s : Spec) : Arg → Option Bytes
       let body := if v = 0 then ascii "(nil)" else [48, 120] ++ natDigits 16 false v
       some (padField { s.flags with zero := false } s.width [] body false)
     else none
-  | .dbl bits => if "fFeEgG".contains s.conv then some (fmtFloat s bits) else none
+  | .dbl bits => if isFloatConv s.conv then some (fmtFloat s bits) else none
   | .str str =>
     if s.conv = 's' then
-      let t := cstrlen str
-      let t := match s.prec with | none => t | some p => t.take p
-      some (padField { s.flags with zero := false } s.width [] t false)
+      some (padField { s.flags with zero := false } s.width [] (strArg s.prec str) false)
     else none
 
 end Gpc.Printf
